@@ -906,6 +906,7 @@ M("C14", "json: alignment start without offset", DC, "    st = utt_start + (doub
 M("C14", "json: prob of different call", DC, "    prob = logmath_exp(lmath, seg_iter_prob(seg, NULL, NULL));", "    prob = logmath_exp(lmath, 0);", "PROV.E4-values")
 
 # ---- C18 ----------------------------------------------------------------------
+M("C18", "mel filters: zero-width filter not refused", "src/fe_sigproc.c", "        if (!(freqs[0] < freqs[1]) || !(freqs[1] < freqs[2])) {", "        if (0) {", "DIV.difference")
 M("C18", "fe: log floor dropped", "src/fe_sigproc.c", "mfspec[i] = log(mfspec[i] + LOG_FLOOR);", "mfspec[i] = log(mfspec[i]);", "LOG.floor")
 M("C18", "cmn_live_update: zero-count guard dropped (seed C18-1 core)", "src/cmn_live.c", """    if (cmn->nframe <= 0)
         return;
